@@ -141,6 +141,14 @@ def _moment_case(case):
     E, V = op.calculate_expectation_and_variance(sa)
     E, V = np.array(E, dtype=float), np.array(V, dtype=float)
     fails = []
+    # asking again on the same, unchanged grid must give the same answer (the laws are then checked on the LAST answer)
+    for rep in range(2):
+        E2, V2 = op.calculate_expectation_and_variance(sa)
+        E2, V2 = np.array(E2, dtype=float), np.array(V2, dtype=float)
+        if not (np.array_equal(E, E2) and np.array_equal(V, V2)):
+            fails.append(fail("repeated_query_changes_result", "query %d on the same grid: E %r -> %r, Var %r -> %r" % (rep + 2, E.tolist(), E2.tolist(), V.tolist(), V2.tolist()), key))
+            break
+    E, V = E2, V2
     # a finite box around a normal distribution carries slightly less than mass 1 (the library does not truncate): the laws hold
     # up to that deficit (2e-9 for mu+-6sigma); it is 0 for the bounded distributions and for infinite support
     D0 = op.distributions[0]
